@@ -57,10 +57,13 @@ Bootstrap(filt) ==
 Watcher(kind, i, filt, start, pre) ==
   [kind |-> IF kind = "one" THEN "one" ELSE "all", id |-> i, filt |-> filt, start |-> start, pre |-> pre,
    dcount |-> 0, dpos |-> start, maxlag |-> wp - start, status |-> "active",
-   remote |-> FALSE, retry |-> TRUE, faults |-> 0, lastbm |-> -2, fwp |-> -1]
+   remote |-> FALSE, retry |-> TRUE, faults |-> 0, lastbm |-> -2, fwp |-> -1,
+   idq |-> {}]      \* non-empty: a kind watch with an ID selector that matches exactly these ids
 
 (* C13: watches through the gRPC client adapter; e.remote / e.retry are optional fields of the start line *)
-Remote(e, r) == IF "remote" \in DOMAIN e THEN [r EXCEPT !.remote = e.remote, !.retry = e.retry] ELSE r
+Remote(e, r) ==
+  LET r1 == IF "remote" \in DOMAIN e THEN [r EXCEPT !.remote = e.remote, !.retry = e.retry] ELSE r
+  IN IF "idq" \in DOMAIN e /\ e.idq # <<>> THEN [r1 EXCEPT !.idq = ToSet(e.idq), !.pre = SelectSeq(@, LAMBDA x : x.id = 0 \/ x.id \in ToSet(e.idq))] ELSE r1
 (* a terminal Errored event of a remote watch is justified by a transport fault only if the stream could not be *)
 (* resumed: retries disabled, no bookmark seen yet, or the last bookmark is no longer valid                       *)
 ErroredJustified(r) ==
@@ -111,7 +114,10 @@ Start(e) ==
 
 (* ---- one received event ---- *)
 AbsEv(j) == [t |-> j.t, id |-> j.id, ver |-> j.ver, lab |-> j.lab, over |-> j.over, olab |-> j.olab, bm |-> j.bm]
-ExpectedOf(r) == r.pre \o ViewSeq(r.kind, r.id, r.filt, SubSeq(log, r.start + 1, wp))
+(* an ID selector commutes with the label rewrite (the id of a resource never changes): it simply drops the events of other ids *)
+ExpectedOf(r) ==
+  LET v == ViewSeq(r.kind, r.id, r.filt, SubSeq(log, r.start + 1, wp))
+  IN r.pre \o (IF r.idq = {} THEN v ELSE SelectSeq(v, LAMBDA x : x.id \in r.idq))
 
 Recv(e) ==
   IF e.w \notin DOMAIN wst THEN Reject("recv-unknown-watch", "", e.w)
